@@ -1250,20 +1250,34 @@ class PSBTIn:
             if self.redeem_script:
                 if not script_pubkey.is_p2sh():
                     raise ValueError("RedeemScript defined for non-p2sh ScriptPubKey")
-                # non-witness p2sh
-                if self.redeem_script.is_p2wsh() or self.redeem_script.is_p2wpkh():
-                    raise ValueError("Non-witness UTXO provided for witness input")
                 h160 = script_pubkey.commands[1]
                 if self.redeem_script.hash160() != h160:
                     raise ValueError(
                         "RedeemScript hash160 and ScriptPubKey hash160 do not match"
                     )
-                for sec in self.named_pubs.keys():
-                    try:
-                        # this will raise a ValueError if it's not in there
-                        self.redeem_script.commands.index(sec)
-                    except ValueError:
-                        raise ValueError(f"pubkey is not in RedeemScript {self}")
+                if self.redeem_script.is_p2wsh():
+                    # p2sh-p2wsh documented by its previous transaction (allowed by
+                    # BIP174): the keys belong to the WitnessScript, checked above
+                    pass
+                elif self.redeem_script.is_p2wpkh():
+                    # p2sh-p2wpkh documented by its previous transaction
+                    if len(self.named_pubs) > 1:
+                        raise ValueError("too many pubkeys in p2sh-p2wpkh")
+                    for named_pub in self.named_pubs.values():
+                        if self.redeem_script.commands[1] != named_pub.hash160():
+                            raise ValueError(
+                                "pubkey {} does not match the hash160".format(
+                                    named_pub.sec().hex()
+                                )
+                            )
+                else:
+                    # non-witness p2sh
+                    for sec in self.named_pubs.keys():
+                        try:
+                            # this will raise a ValueError if it's not in there
+                            self.redeem_script.commands.index(sec)
+                        except ValueError:
+                            raise ValueError(f"pubkey is not in RedeemScript {self}")
             elif script_pubkey and script_pubkey.is_p2pkh():
                 if len(self.named_pubs) > 1:
                     raise ValueError("too many pubkeys in p2pkh")
